@@ -60,17 +60,17 @@ type target struct {
 }
 
 var importMap = map[string]string{
-	"sync":                                  "verif/h/vsched/vsync",
-	"time":                                  "verif/h/vsched/vtime",
-	"context":                               "verif/h/vsched/vcontext",
-	"github.com/coder/websocket":            "verif/h/vsched/fake/websocket",
-	"github.com/coder/websocket/wsjson":     "verif/h/vsched/fake/wsjson",
-	"github.com/fsnotify/fsnotify":          "verif/h/vsched/fake/fsnotify",
+	"sync":                                 "verif/h/vsched/vsync",
+	"time":                                 "verif/h/vsched/vtime",
+	"context":                              "verif/h/vsched/vcontext",
+	"github.com/coder/websocket":           "verif/h/vsched/fake/websocket",
+	"github.com/coder/websocket/wsjson":    "verif/h/vsched/fake/wsjson",
+	"github.com/fsnotify/fsnotify":         "verif/h/vsched/fake/fsnotify",
 	"oss.terrastruct.com/util-go/xbrowser": "verif/h/vsched/fake/xbrowser",
 }
 
 const (
-	tWatch = 0
+	tWatch   = 0
 	tBundler = 1
 )
 
